@@ -443,6 +443,33 @@ let rec handle (line : string) : string =
     let w = num w and h = num h in
     let total = total_bytes w h and data = data_bytes w h in
     Printf.sprintf "len=%s zeros=%s ff=%s first=%s.16.0.0" (pn total) (pn (N.sub data (n_of_int 4))) (pn (N.sub total data)) id
+  | ["UNW"; w; h; x; y; op] ->
+    (* the pixel operation made while the thread unwinds: out of bounds is the panic (there: an abort), else as usual *)
+    let p = page_new (n_of_int 1) (num w) (num h) in
+    (if op = "S" then
+       match set_pixel p (num x) (num y) true with
+       | None -> "ABORT"
+       | Some p' -> "OK SET " ^ hex_of_bytes p'.p_bytes
+     else
+       match get_pixel p (num x) (num y) with
+       | None -> "ABORT"
+       | Some v -> Printf.sprintf "OK GET %d %s" (if v then 1 else 0) (hex_of_bytes p.p_bytes))
+  | ["PXI"; w; h; x; y] ->
+    (* one pixel of a fresh page too large to build here: where the model's [index] puts it; the other pixels stay off
+       (C06_get_set_other), so the in-bounds neighbours read 0 *)
+    let w = num w and h = num h and x = num x and y = num y in
+    (match index { p_w = w; p_h = h; p_bytes = [] } x y with
+     | None -> "PANIC"
+     | Some (i, b) ->
+       let right = if N.ltb (N.add x (n_of_int 1)) w then "0" else "-" in
+       let above = if N.ltb N0 y then "0" else "-" in
+       Printf.sprintf "len=%s set=[%s:%d] get=1 nbr=%s/%s" (pn (total_bytes w h)) (pn i) (1 lsl (int_of_n b)) right above)
+  | ["PBX"; w; h; len; fill] ->
+    let len = int_of_string len and fill = num fill in
+    let bs = List.init len (fun i -> if i < 4 then List.nth [n_of_int 7; n_of_int 16; N0; N0] i else fill) in
+    (match page_from_bytes (num w) (num h) bs with
+     | Ok p -> "OK " ^ hex_of_bytes p.p_bytes
+     | Err (WrongPageLength (_, _, _, _)) -> "ER LEN")
   | ["PB"; w; h; len; seed] | ["PBO"; w; h; len; seed] ->
     let bs = pb_bytes (int_of_string len) (int_of_string seed) in
     (match page_from_bytes (num w) (num h) bs with
